@@ -1248,3 +1248,109 @@ V("C03", "C03.R6", "c03-counter-ignores-kwds", "shroud/wrapp.py",
   '''                "if (args != {nullptr}) SHT_nargs += PyTuple_Size(args);\\n"
                 "if (kwds != {nullptr}) SHT_nargs += PyDict_Size(kwds);",''',
   '''                "if (args != {nullptr}) SHT_nargs += PyTuple_Size(args);",''', "fire", "SHT_nargs")
+
+# ---------------------------------------------------------------------------
+# C18
+# ---------------------------------------------------------------------------
+V("C18", "C18.R1", "c18-int-pops-number", "shroud/typemap.py",
+  '''            PY_format="i",
+            PY_ctor="PyInt_FromLong({ctor_expr})",
+            PY_get="PyInt_AsLong({py_var})",
+            PYN_typenum="NPY_INT",
+            LUA_type="LUA_TNUMBER",
+            LUA_pop="lua_tointeger({LUA_state_var}, {LUA_index})",
+            LUA_push="lua_pushinteger({LUA_state_var}, {push_arg})",
+            sgroup="native",
+            sh_type="SH_TYPE_INT",''',
+  '''            PY_format="i",
+            PY_ctor="PyInt_FromLong({ctor_expr})",
+            PY_get="PyInt_AsLong({py_var})",
+            PYN_typenum="NPY_INT",
+            LUA_type="LUA_TNUMBER",
+            LUA_pop="lua_tonumber({LUA_state_var}, {LUA_index})",
+            LUA_push="lua_pushinteger({LUA_state_var}, {push_arg})",
+            sgroup="native",
+            sh_type="SH_TYPE_INT",''', "fire", "typemap[int]")
+V("C18", "C18.R1", "c18-bool-type-tag", "shroud/typemap.py",
+  '            LUA_type="LUA_TBOOLEAN",', '            LUA_type="LUA_TNUMBER",', "fire", "typemap[bool]")
+V("C18", "C18.R1", "c18-pop-fixed-slot", "shroud/typemap.py",
+  '''            PYN_typenum="NPY_DOUBLE",
+            LUA_type="LUA_TNUMBER",
+            LUA_pop="lua_tonumber({LUA_state_var}, {LUA_index})",
+            LUA_push="lua_pushnumber({LUA_state_var}, {push_arg})",
+            sgroup="native",
+            sh_type="SH_TYPE_DOUBLE",''',
+  '''            PYN_typenum="NPY_DOUBLE",
+            LUA_type="LUA_TNUMBER",
+            LUA_pop="lua_tonumber({LUA_state_var}, 1)",
+            LUA_push="lua_pushnumber({LUA_state_var}, {push_arg})",
+            sgroup="native",
+            sh_type="SH_TYPE_DOUBLE",''', "fire", "typemap[double]")
+V("C18", "C18.R2", "c18-default-arm-dropped", "shroud/wrapl.py",
+  '''                "default:+\\n"
+                'luaL_error({LUA_state_var}, "error with arguments");\\n'
+                "break;\\n"
+                "-}}\\n"
+                "return SH_nresult;",''',
+  '''                "-}}\\n"
+                "return SH_nresult;",''', "fire", "default-arm")
+V("C18", "C18.R2", "c18-else-arm-dropped", "shroud/wrapl.py",
+  '''                if nargs > 0:
+                    # Trap errors when the argument types do not match
+                    append_format(
+                        lines,
+                        "else {{+\\n"
+                        'luaL_error({LUA_state_var}, "error with arguments");\\n'
+                        "-}}",
+                        fmt,
+                    )''',
+  '''                if nargs > 99:
+                    # Trap errors when the argument types do not match
+                    append_format(
+                        lines,
+                        "else {{+\\n"
+                        'luaL_error({LUA_state_var}, "error with arguments");\\n'
+                        "-}}",
+                        fmt,
+                    )''', "fire", "else-arm")
+V("C18", "C18.R2", "c18-prefix-after-append", "shroud/wrapl.py",
+  '''                if arg.init is not None:
+                    all_calls.append(
+                        LuaFunction(
+                            function, CXX_subprogram, in_args[:], out_args
+                        )
+                    )
+                in_args.append(arg)''',
+  '''                in_args.append(arg)
+                if arg.init is not None:
+                    all_calls.append(
+                        LuaFunction(
+                            function, CXX_subprogram, in_args[:], out_args
+                        )
+                    )''', "fire", "default-prefixes")
+V("C18", "C18.R2", "c18-type-test-wrong-slot", "shroud/wrapl.py",
+  "                        fmt.itype_var = itype_vars[iarg]\n", "                        fmt.itype_var = itype_vars[0]\n",
+  "fire", "type-tests")
+V("C18", "C18.R2", "c18-nresult-missing", "shroud/wrapl.py",
+  '''                        self.do_function(cls, call, fmt)
+                        append_format(lines, "SH_nresult = {nresults};", fmt)
+                        lines.extend([-1, "}"])''',
+  '''                        self.do_function(cls, call, fmt)
+                        lines.extend([-1, "}"])''', "fire", "nresult")
+V("C18", "C18.R3", "c18-index-always-advances", "shroud/wrapl.py",
+  '''                    fmt_arg.pop_expr = wformat(arg_typemap.c_to_cxx, fmt_arg)
+                LUA_index += 1''',
+  '''                    fmt_arg.pop_expr = wformat(arg_typemap.c_to_cxx, fmt_arg)
+            LUA_index += 1''', "fire", "LUA_index")
+V("C18", "C18.R3", "c18-result-not-pushed", "shroud/wrapl.py",
+  '''        name="lua_bool_scalar_result",
+        mixin=[
+            "lua_mixin_callfunction",
+            "lua_mixin_push"
+        ],''',
+  '''        name="lua_bool_scalar_result",
+        mixin=[
+            "lua_mixin_callfunction",
+        ],''', "fire", "lua_bool_scalar_result")
+V("C18", "C18.R3", "c18-field-typo", "shroud/wrapl.py",
+  '''            "bool {c_var} = {pop_expr};",''', '''            "bool {c_var} = {pop_exp};",''', "fire", "lua_bool_scalar_in")
